@@ -173,11 +173,13 @@ void harness(void)
   }
   VP_ASSERT(C16, !(fail_at < 0 || fail_at >= ncalls) || r == 0 || r == REPROC_ETIMEDOUT,
             "drain fails without a sink failing or the deadline expiring");
-  VP_ASSERT(C16, r != REPROC_ETIMEDOUT || (o.deadline != 0 && vp_T >= p->deadline),
+  VP_ASSERT(C16, r != REPROC_ETIMEDOUT || (fail_at >= 0 && fail_at < ncalls) ||
+                     (o.deadline != 0 && vp_T >= p->deadline),
             "drain reports a timeout although the deadline has not expired");
   VP_ASSERT(C16, !(fail_at < 0 || fail_at >= ncalls) || o.deadline == 0 || r != 0 || vp_T <= p->deadline,
             "drain goes on after the deadline instead of reporting the timeout");
-  VP_ASSERT(C16, reproc_drain(NULL, so, se) == REPROC_EINVAL, "drain(NULL) is not rejected");
+  int rnull = reproc_drain(NULL, so, se);
+  VP_ASSERT(C16, rnull == REPROC_EINVAL, "drain(NULL) is not rejected");
   VP_COVER(r == 0 && ncalls >= 5, "both streams drained to the end");
   VP_COVER(r == REPROC_ETIMEDOUT, "deadline expires during drain");
   VP_COVER(fail_at >= 2 && fail_at < ncalls && r == fail_val, "a sink fails in the middle");
@@ -191,7 +193,10 @@ void harness(void)
     o.redirect.discard = sh == 1;
     o.redirect.path = sh == 2 ? "o" : NULL;
   }
-  vp_faults_left = vp_choice(0, 1);
+#ifndef VP_F
+#define VP_F 1
+#endif
+  vp_faults_left = vp_choice(0, VP_F);
   int f0 = vp_faults_left;
   vp_hang_allowed = true; /* default stop policy waits for the child; timing is C07/C15 */
   int r = api == 2 ? reproc_run(argv_plain, o) : reproc_run_ex(api == 1 ? NULL : argv_plain, o, so, se);
@@ -218,7 +223,9 @@ void harness(void)
   }
   VP_COVER(api == 0 && r >= 0 && ncalls >= 4, "run_ex drains and returns the exit status");
   VP_COVER(api == 2 && r >= 0 && sh == 0, "run with the parent's streams");
+#if VP_F > 0
   VP_COVER(api == 0 && r < 0 && vp_faults_left < f0, "run_ex with an injected failure");
+#endif
 #endif
   VP_COVER(1, "end of harness");
 }
